@@ -104,7 +104,12 @@ def scan_assumptions(text):
 
 def run_verus_part():
     t0 = time.time()
-    path, log, expand_s, body = build_verus_unit()
+    try:
+        path, log, expand_s, body = build_verus_unit()
+    except LostAnchor as ex:
+        from .splice import Log
+        return {'path': None, 'log': Log(), 'expand_s': 0.0, 'wall_s': time.time() - t0, 'verus_s': 0.0, 'functions': [], 'verified': 0,
+                'failures': [], 'inconclusive': 'lost anchor while splicing the unit: %s' % ex, 'canary_ok': False, 'assumption_scan': []}
     res = run_verus(path, timeout=900)
     loc = Locator(open(path).read(), path)
     st, fails, why = classify_verus(res, canary='__vacuity_canary')
@@ -209,6 +214,14 @@ def run_unit(tier, with_kani=True, with_concurrent=None):
         k = fk.result() if fk else {'harnesses': [], 'results': {}, 'wall_s': 0, 'failures': [], 'inconclusive': []}
         c = fc.result() if fc else None
     return {'verus': v, 'kani': k, 'native': n, 'concurrent': c, 'binary': binary, 'crate': crate, 'wall_s': time.time() - t0}
+
+
+def companions_ran_clean(vf, unit):
+    """True iff this function has executable-contract companions, at least one ran in this run and none of them failed."""
+    cands = cex_candidates(vf['container'], vf['fn'])
+    res = unit['native']['results']
+    ran = [h for h in cands if h in res]
+    return bool(ran) and all(not res[h]['failures'] for h in ran)
 
 
 def find_cex(vf, unit):
